@@ -8,7 +8,11 @@ import (
 	"golang.org/x/tools/go/ssa"
 )
 
+// Sweep assumptions (API-usage preconditions applied to every function of a sweep; listed in the evidence):
+// pointer parameters are non-nil, function values supplied by the caller are non-nil, *uio.Lexer parameters are
+// well-formed big-endian lexers (constructed by uio.NewBigEndianBuffer).
 type Modes struct {
+	NonNilParams bool
 	Safety      bool // panic-freedom obligations
 	Post        bool // ensures of the function's own contract
 	Frame       bool // modifies/frame obligations on every write
@@ -78,6 +82,16 @@ func (eng *Engine) verifyFunction(fn *ssa.Function, modes Modes) (res *FnResult)
 	st0 := g.freshState("entry")
 	g.entry = st0
 	g.assume(fmt.Sprintf("(> %s 0)", st0.Next))
+	// Go memory safety for the entry heap: every reference stored anywhere is allocated (DESIGN 4.2)
+	for _, k := range []string{"L", "ML"} {
+		g.assume(fmt.Sprintf("(forall ((r Int) (o Int)) (! (< (sref (select (select %s r) o)) %s) :pattern ((select (select %s r) o))))", st0.H[k], st0.Next, st0.H[k]))
+	}
+	for _, k := range []string{"R", "MR"} {
+		g.assume(fmt.Sprintf("(forall ((r Int) (o Int)) (! (< (select (select %s r) o) %s) :pattern ((select (select %s r) o))))", st0.H[k], st0.Next, st0.H[k]))
+	}
+	for _, k := range []string{"P", "MP"} {
+		g.assume(fmt.Sprintf("(forall ((r Int) (o Int)) (! (< (pref (select (select %s r) o)) %s) :pattern ((select (select %s r) o))))", st0.H[k], st0.Next, st0.H[k]))
+	}
 	// initial contents of immutable package-level variables (constants stored by the package initialiser)
 	refd := map[*ssa.Global]bool{}
 	eng.referencedGlobals(fn, 0, map[*ssa.Function]bool{}, refd)
@@ -99,6 +113,17 @@ func (eng *Engine) verifyFunction(fn *ssa.Function, modes Modes) (res *FnResult)
 		args = append(args, n)
 		isRecv := i == 0 && fn.Signature.Recv() != nil
 		g.assume(paramWF(g, p.Type(), n, st0, isRecv))
+		if modes.NonNilParams {
+			switch p.Type().Underlying().(type) {
+			case *types.Pointer:
+				g.assume(fmt.Sprintf("(> (pref %s) 0)", n))
+			case *types.Signature:
+				g.assume(fmt.Sprintf("(not (= %s nilIface))", n))
+			case *types.Interface:
+				g.assume(fmt.Sprintf("(not (= %s nilIface))", n))
+				g.assume(g.heapValWF(p.Type(), n, st0))
+			}
+		}
 	}
 	// free variables of closures verified on their own: arbitrary cells
 	top.preEnv = map[ssa.Value]string{}
@@ -113,6 +138,19 @@ func (eng *Engine) verifyFunction(fn *ssa.Function, modes Modes) (res *FnResult)
 		top.env[p] = args[i]
 	}
 	top.entry = st0.clone()
+	if modes.NonNilParams {
+		// *uio.Lexer parameters: well-formed big-endian lexer (macro lexOK of extern/uio.contracts)
+		for i, p := range fn.Params {
+			if shortName(p.Type().String()) == "*uio.Lexer" {
+				if mc := findMacro("lexOK"); mc != nil {
+					e := top.newEnv(st0, nil, nil)
+					c := e.child()
+					c.bound[mc.Params[0]] = tv{term: args[i], typ: p.Type()}
+					g.assume(c.evalBool(mc.Body.Expr))
+				}
+			}
+		}
+	}
 	if ct != nil {
 		for _, l := range ct.Lets {
 			e := top.newEnv(st0, nil, nil)
